@@ -1,0 +1,10 @@
+//go:build verif
+// +build verif
+
+// Contracts for package api, checked by /verif/cmd/govc (comment-only file; see /verif/DESIGN.md).
+package api
+
+// X4 (C16) / C19: classification of an arbitrary output script for display never panics.
+//@ func extractAddressInfos
+//@   props C16 C19
+//@   requires config.ChainParams != nil
